@@ -213,6 +213,247 @@ def t_augassign(fn) -> bool:
     return ch
 
 
+def t_else_after_exit(fn) -> bool:
+    """if c: ...; return X   REST   ->   if c: ...; return X  else: REST."""
+    ch = False
+
+    def walk(stmts):
+        nonlocal ch
+        for i, st in enumerate(stmts):
+            for f in ("body", "orelse", "finalbody"):
+                sub = getattr(st, f, None)
+                if isinstance(sub, list) and sub and isinstance(
+                        sub[0], ast.stmt):
+                    setattr(st, f, walk(sub))
+            for h in getattr(st, "handlers", []) or []:
+                h.body = walk(h.body)
+            if isinstance(st, ast.If) and not st.orelse and isinstance(
+                    st.body[-1], (ast.Return, ast.Raise, ast.Continue)) and \
+                    i + 1 < len(stmts) and not any(
+                    isinstance(x, (ast.FunctionDef, ast.ClassDef))
+                    for x in stmts[i + 1:]):
+                st.orelse = stmts[i + 1:]
+                ch = True
+                return stmts[:i + 1]
+        return stmts
+
+    fn.body = walk(fn.body)
+    return ch
+
+
+def t_dedent_else(fn) -> bool:
+    """if c: ...; return X  else: REST   ->   if c: ...; return X   REST."""
+    ch = False
+
+    def walk(stmts):
+        nonlocal ch
+        out = []
+        for st in stmts:
+            for f in ("body", "orelse", "finalbody"):
+                sub = getattr(st, f, None)
+                if isinstance(sub, list) and sub and isinstance(
+                        sub[0], ast.stmt):
+                    setattr(st, f, walk(sub))
+            for h in getattr(st, "handlers", []) or []:
+                h.body = walk(h.body)
+            if isinstance(st, ast.If) and st.orelse and isinstance(
+                    st.body[-1], (ast.Return, ast.Raise, ast.Continue)):
+                rest = st.orelse
+                st.orelse = []
+                out.append(st)
+                out.extend(rest)
+                ch = True
+            else:
+                out.append(st)
+        return out
+
+    fn.body = walk(fn.body)
+    return ch
+
+
+def t_comp_to_loop(fn) -> bool:
+    """xs = [f(a) for a in it if c]  ->  xs = []; for a_lv in it: if c: append."""
+    if _nested_scope(fn):
+        return False
+    ch = False
+    counter = [0]
+
+    def walk(stmts):
+        nonlocal ch
+        out = []
+        for st in stmts:
+            for f in ("body", "orelse", "finalbody"):
+                sub = getattr(st, f, None)
+                if isinstance(sub, list) and sub and isinstance(
+                        sub[0], ast.stmt):
+                    setattr(st, f, walk(sub))
+            for h in getattr(st, "handlers", []) or []:
+                h.body = walk(h.body)
+            v = getattr(st, "value", None)
+            if isinstance(st, ast.Assign) and len(st.targets) == 1 and \
+                    isinstance(st.targets[0], ast.Name) and isinstance(
+                    v, (ast.ListComp, ast.SetComp, ast.DictComp)) and len(
+                    v.generators) == 1 and not v.generators[0].is_async and \
+                    not any(isinstance(x, ast.Name) and x.id == st.targets[0].id
+                            for x in ast.walk(v)) and not any(
+                    isinstance(x, (ast.ListComp, ast.SetComp, ast.DictComp,
+                                   ast.GeneratorExp, ast.Lambda, ast.NamedExpr))
+                    for x in ast.walk(v) if x is not v):
+                g = v.generators[0]
+                counter[0] += 1
+                table = {}
+                for n in ast.walk(g.target):
+                    if isinstance(n, ast.Name):
+                        table[n.id] = f"{n.id}_lv{counter[0]}"
+                for n in ast.walk(v):
+                    if isinstance(n, ast.Name) and n.id in table:
+                        n.id = table[n.id]
+                name = st.targets[0].id
+                if isinstance(v, ast.ListComp):
+                    init = ast.List([], ast.Load())
+                    add = ast.Expr(ast.Call(ast.Attribute(
+                        ast.Name(name, ast.Load()), "append", ast.Load()),
+                        [v.elt], []))
+                elif isinstance(v, ast.SetComp):
+                    init = ast.Call(ast.Name("set", ast.Load()), [], [])
+                    add = ast.Expr(ast.Call(ast.Attribute(
+                        ast.Name(name, ast.Load()), "add", ast.Load()),
+                        [v.elt], []))
+                else:
+                    init = ast.Dict([], [])
+                    add = ast.Assign([ast.Subscript(
+                        ast.Name(name, ast.Load()), v.key, ast.Store())],
+                        v.value)
+                body = [add]
+                for c in reversed(g.ifs):
+                    body = [ast.If(c, body, [])]
+                out.append(ast.Assign([ast.Name(name, ast.Store())], init))
+                out.append(ast.For(g.target, g.iter, body, []))
+                ch = True
+                continue
+            out.append(st)
+        return out
+
+    fn.body = walk(fn.body)
+    return ch
+
+
+def t_classref(fn) -> bool:
+    """self.__class__ <-> type(self)."""
+    ch = False
+
+    class T(ast.NodeTransformer):
+        def visit_Attribute(self, n):
+            nonlocal ch
+            self.generic_visit(n)
+            if n.attr == "__class__" and isinstance(n.value, ast.Name) and \
+                    isinstance(n.ctx, ast.Load):
+                ch = True
+                return ast.Call(ast.Name("type", ast.Load()), [n.value], [])
+            return n
+
+        def visit_Call(self, n):
+            nonlocal ch
+            if isinstance(n.func, ast.Name) and n.func.id == "type" and len(
+                    n.args) == 1 and isinstance(n.args[0], ast.Name) and \
+                    not n.keywords:
+                ch = True
+                return ast.Attribute(n.args[0], "__class__", ast.Load())
+            self.generic_visit(n)
+            return n
+
+    T().visit(fn)
+    return ch
+
+
+def t_swap_independent(fn) -> bool:
+    """two adjacent assignments `a = <pure>; b = <pure>` that do not mention
+    each other's names are exchanged."""
+    ch = False
+
+    def pure(e):
+        return not any(isinstance(x, (ast.Call, ast.Subscript, ast.Attribute,
+                                      ast.NamedExpr, ast.Yield, ast.Await,
+                                      ast.ListComp, ast.SetComp, ast.DictComp,
+                                      ast.GeneratorExp))
+                       for x in ast.walk(e))
+
+    def walk(stmts):
+        nonlocal ch
+        for st in stmts:
+            for f in ("body", "orelse", "finalbody"):
+                sub = getattr(st, f, None)
+                if isinstance(sub, list) and sub and isinstance(
+                        sub[0], ast.stmt):
+                    walk(sub)
+        i = 0
+        while i + 1 < len(stmts):
+            a, b = stmts[i], stmts[i + 1]
+            if all(isinstance(x, ast.Assign) and len(x.targets) == 1
+                   and isinstance(x.targets[0], ast.Name) and pure(x.value)
+                   for x in (a, b)):
+                na = {n.id for n in ast.walk(a) if isinstance(n, ast.Name)}
+                nb = {n.id for n in ast.walk(b) if isinstance(n, ast.Name)}
+                if a.targets[0].id not in nb and b.targets[0].id not in na:
+                    stmts[i], stmts[i + 1] = b, a
+                    ch = True
+                    i += 2
+                    continue
+            i += 1
+
+    walk(fn.body)
+    return ch
+
+
+def t_walrus_out(fn) -> bool:
+    """if (x := e) ...:  ->  x = e; if x ...:   (walrus leading the test)."""
+    ch = False
+
+    def first_walrus(test):
+        # the walrus must be the first thing evaluated in the test
+        e = test
+        while True:
+            if isinstance(e, ast.NamedExpr):
+                return e
+            if isinstance(e, ast.Compare):
+                e = e.left
+            elif isinstance(e, ast.BoolOp):
+                e = e.values[0]
+            elif isinstance(e, ast.UnaryOp):
+                e = e.operand
+            else:
+                return None
+
+    def walk(stmts):
+        nonlocal ch
+        out = []
+        for st in stmts:
+            for f in ("body", "orelse", "finalbody"):
+                sub = getattr(st, f, None)
+                if isinstance(sub, list) and sub and isinstance(
+                        sub[0], ast.stmt):
+                    setattr(st, f, walk(sub))
+            if isinstance(st, ast.If):
+                w = first_walrus(st.test)
+                if w is not None and isinstance(w.target, ast.Name):
+                    out.append(ast.Assign([ast.Name(w.target.id, ast.Store())],
+                                          w.value))
+
+                    class T(ast.NodeTransformer):
+                        def visit_NamedExpr(self, n):
+                            if n is w:
+                                return ast.Name(w.target.id, ast.Load())
+                            self.generic_visit(n)
+                            return n
+                    st.test = T().visit(st.test)
+                    ch = True
+            out.append(st)
+        return out
+
+    fn.body = walk(fn.body)
+    return ch
+
+
 TRANSFORMS = {
     "format": t_format,
     "rename": t_rename,
@@ -222,6 +463,12 @@ TRANSFORMS = {
     "in2or": t_in_to_or,
     "nestif": t_elif_nest,
     "splittuple": t_augassign,
+    "elseafter": t_else_after_exit,
+    "dedentelse": t_dedent_else,
+    "comp2loop": t_comp_to_loop,
+    "classref": t_classref,
+    "swapindep": t_swap_independent,
+    "walrusout": t_walrus_out,
 }
 
 
@@ -240,7 +487,12 @@ def variants(transforms, granularity):
                     ch |= bool(tf(fn))
                 if ch:
                     ast.fix_missing_locations(tree)
-                    yield (tname, rel, "*", ast.unparse(tree))
+                    try:
+                        new = ast.unparse(tree)
+                        compile(new, rel, "exec")
+                    except Exception:
+                        continue
+                    yield (tname, rel, "*", new)
             else:
                 tree0 = ast.parse(src)
                 names = [(fn.name, fn.lineno) for fn in _funcs(tree0)]
